@@ -76,6 +76,7 @@ func readKnown() []KnownFinding {
 }
 
 var propTag = regexp.MustCompile(`^C[0-9]+$`)
+var conjunctSuffix = regexp.MustCompile(`#[0-9]+$`)
 
 // relevant: does obligation o count for property id?
 func relevant(o *Obligation, id string) bool {
@@ -149,7 +150,7 @@ func cmdCheck(args []string) {
 		if o.Status == "proved" {
 			continue
 		}
-		key := o.Name
+		key := conjunctSuffix.ReplaceAllString(o.Name, "")
 		if reported[key] {
 			continue
 		}
